@@ -1327,6 +1327,9 @@ def oracle_open(arg, out, with_log=True):
                     return 'output location unwritable, TEXMFOUTPUT set and usable, but no fallback: %s' % res
                 if log is not None and (len(log) < 2 or S(log[1][0]) != posixpath.join(S(tex[0]), name)):
                     return 'fallback did not open TEXMFOUTPUT/<file>'
+                if log is not None and log[1][1:] != log[0][1:]:
+                    return ('the TEXMFOUTPUT fallback is not the same open() at another place: first attempt (mode, encoding) = %s, fallback = %s '
+                            '(the file would not receive the bytes of the configured encoding)' % (log[0][1:], log[1][1:]))
             else:
                 if res[0] != 1:
                     return 'nothing could be opened but no pybtex error: %s' % res
